@@ -11,7 +11,8 @@ import CoapVerif.Model.LinkFormat
              <attrs> `.` or `;`-separated  `<name>=<value>` / `<name>`      (all strings hex, `-` = empty)
    <filter>  hex, `-` = empty string, `N` = NULL
    <windows> `,`-separated `<offset>/<buflen>`
-   output per window:  <bytes hex>:<t|-|e>:<total>     joined by `,`
+   output: F<own full listing hex>;<window>,…  with <window> = <bytes>:<t|-|e>:<total>, <bytes> = `=<n>` when the n bytes
+           equal full[offset..offset+n) and `x<hex>` otherwise
 -/
 -- DRIVER-OPS: wk => Coap.Driver.LinkFormat.wkStep
 -- DRIVER-OPS: match => Coap.Driver.LinkFormat.matchStep
@@ -60,9 +61,13 @@ def parseWindow (s : String) : Option (Nat × Nat) :=
 
 def flag (st : Status) : String := if st.error then "e" else if st.trunc then "t" else "-"
 
-def showOut (r : R Out) : String :=
+/-- a window whose bytes equal `full[off .. off+n)` is printed as `=<n>`, any other as `x<hex>` -/
+def showBytes (full : Bytes) (off : Nat) (b : Bytes) : String :=
+  if b.isEmpty || window full off b.length == b then "=" ++ toString b.length else "x" ++ hexOrDash b
+
+def showOut (full : Bytes) (off : Nat) (r : R Out) : String :=
   match r with
-  | .ok o => hexOrDash o.out ++ ":" ++ flag o.status ++ ":" ++ toString o.total
+  | .ok o => (if o.status.error then "=0" else showBytes full off o.out) ++ ":" ++ flag o.status ++ ":" ++ toString o.total
   | .rej => "rej"
   | .oob => "oob"
 
@@ -70,7 +75,13 @@ def specWindow (l : Bytes) (off n : Nat) : String :=
   let wdw := window l off n
   -- the property fixes the flag only for a non-empty buffer
   let f := if n = 0 then "?" else if off + wdw.length < l.length then "t" else "-"
-  hexOrDash wdw ++ ":" ++ f ++ ":" ++ toString l.length
+  showBytes l off wdw ++ ":" ++ f ++ ":" ++ toString l.length
+
+def showFull (r : R Bytes) : String :=
+  match r with
+  | .ok b => hexOrDash b
+  | .rej => "rej"
+  | .oob => "oob"
 
 def showB (b : Bool) : String := if b then "1" else "0"
 
@@ -92,8 +103,10 @@ def wkStep (args : List String) : String :=
     match parseTable t, parseFilterArg f, (ws.splitOn ",").mapM parseWindow with
     | some t, some qf, some ws =>
       let l := listing t (qf.getD [])
-      "M " ++ String.intercalate "," (ws.map fun (o, n) => showOut (wellknown t qf n o)) ++
-      " | S " ++ String.intercalate "," (ws.map fun (o, n) => specWindow l o n)
+      let mf := hndBody t qf           -- M's own full listing: size probe + full print
+      let mfull := match mf with | .ok b => b | _ => []
+      "M F" ++ showFull mf ++ ";" ++ String.intercalate "," (ws.map fun (o, n) => showOut mfull o (wellknown t qf n o)) ++
+      " | S F" ++ hexOrDash l ++ ";" ++ String.intercalate "," (ws.map fun (o, n) => specWindow l o n)
     | _, _, _ => "bad-op"
   | _ => "bad-op"
 
